@@ -57,6 +57,13 @@ CHECKS["C17"] = dict(
     note="Trusted: the origin/client reference parsers, the h2 client. Two known findings are listed in known_findings.json. HTTP/3 not simulated.",
 )
 
+CHECKS["C18"] = dict(
+    level="exploration",
+    text="Seeded search over service requests (ping host and markers, speedtest N and L at and beyond their bounds, other paths/methods, reverse proxy by SNI and by path with loopback and public origins under both egress policies) driven through the real accept loop, TLS listener and demultiplexers with a rustls client; exact byte counts, status table and an egress monitor decide.",
+    design="DESIGN.md section 8 (C18)",
+    note="Trusted: rustls/h2 clients as peers; TLS ciphertext is not traced. N = 100 and L = 120 MiB bodies are sampled rarely (thorough) or probed by verdict-before-body. HTTP/3 not simulated.",
+)
+
 NOT_YET = {
 }
 
